@@ -276,7 +276,7 @@ func (m *MethodMocker) When(specArg ...interface{}) *When {
 		when *When
 		err  error
 	)
-	if when, err = CreateWhen(m, methodIns.Func.Interface(), specArg, nil, true); err != nil {
+	if when, err = CreateWhen(m, methodIns.Func.Interface(), givenList(specArg), nil, true); err != nil {
 		panic(err)
 	}
 	if err := m.whens(when); err != nil {
@@ -300,7 +300,7 @@ func (m *MethodMocker) Return(value ...interface{}) *When {
 		when *When
 		err  error
 	)
-	if when, err = CreateWhen(m, m.methodIns, nil, value, true); err != nil {
+	if when, err = CreateWhen(m, m.methodIns, nil, givenList(value), true); err != nil {
 		panic(err)
 	}
 	if err := m.whens(when); err != nil {
@@ -532,7 +532,7 @@ func (m *DefMocker) When(specArg ...interface{}) *When {
 		when *When
 		err  error
 	)
-	if when, err = CreateWhen(m, m.funcDef, specArg, nil, false); err != nil {
+	if when, err = CreateWhen(m, m.funcDef, givenList(specArg), nil, false); err != nil {
 		panic(err)
 	}
 	if err := m.whens(when); err != nil {
@@ -551,7 +551,7 @@ func (m *DefMocker) Return(value ...interface{}) *When {
 		when *When
 		err  error
 	)
-	if when, err = CreateWhen(m, m.funcDef, nil, value, false); err != nil {
+	if when, err = CreateWhen(m, m.funcDef, nil, givenList(value), false); err != nil {
 		panic(err)
 	}
 	if err := m.whens(when); err != nil {
